@@ -132,4 +132,11 @@ TEXT = {
         "design_ref": "DESIGN.md section 2, C19",
         "level_note": "Trusted base: board post format re-implemented from the protocol template, hlsim, structural quiescence predicate (live).",
     },
+    "C20": {
+        "engine": "E3 crash enumerator",
+        "technique": "fault enumeration over generated inputs: rapid generates update sequences, strace injects SIGKILL before every file system call of the in-flight update, the reloaded stores are compared with the old and the new value",
+        "level_text": "For each generated update every system-call boundary of the updating process is materialised as an on-disk state (exhaustive per update) and reloaded with the real constructors; update sequences and payload sizes are sampled by rapid. Exactly the property's quantifier (crash points = system-call boundaries) within the stated fault model.",
+        "design_ref": "DESIGN.md section 2, C20",
+        "level_note": "Trusted base: strace 6.1 syscall injection (kill lands before the call executes - probed), the helper's thread pinning, production constructors as the reload oracle. No torn-write / fsync modelling.",
+    },
 }
